@@ -44,7 +44,7 @@ ASSUMPTIONS = ['ASCII distance strings (Python \\d and float() also accept other
                'coordinates away from the subnormal range for "zero iff coincident" (x*x underflows below ~1e-162)']
 PARTIAL = [
     'great-circle triangle inequality and the bound d <= pi*R: not proved in Coq (spherical trigonometry over libm functions); '
-    'checked by the oracle on generated triples incl. poles / antimeridian / antipodes with tolerance 2e-7*R',
+    'checked by the oracle on generated triples incl. poles / antimeridian / antipodes with tolerance 2e-7*R (1e-9*R for local triples within 1 km)',
     'great-circle symmetry is proved for the formula over any arithmetic in which subtraction is antisymmetric, halving and sin are odd '
     'and multiplication commutes (visible hypotheses), and is checked bit-for-bit on floats by the oracle',
     'Euclidean / Manhattan metric axioms are proved for the exact formulas (R, Z); there is no theorem about the rounded float results '
@@ -357,7 +357,9 @@ def sphere_oracle(prox, A, B, C):
         return 'great_circle not symmetric: %r vs %r for A=%r B=%r' % (dab, dba, A, B)
     if daa != 0:
         return 'great_circle d(A,A)=%r for A=%r' % (daa, A)
-    tol = 2e-7 * R_EARTH
+    # asin near 1 amplifies rounding to ~R*sqrt(eps) for far-apart points; for local triples (all within 1 km) the
+    # haversine formula is accurate to nanometres, so the inequality is checked to 1e-9*R (6 mm) there
+    tol = 2e-7 * R_EARTH if max(dab, dbc, dac) > 1000.0 else 1e-9 * R_EARTH
     if dac > dab + dbc + tol:
         return 'great_circle triangle inequality: d(A,C)=%r > d(A,B)+d(B,C)=%r for A=%r B=%r C=%r' % (dac, dab + dbc, A, B, C)
     same_place = (A == B) or (abs(A[1]) == 90 and A[1] == B[1]) or \
@@ -389,6 +391,13 @@ def run_sphere(ctx, prox, lines, cmp):
                 B = A
         elif mode < 0.40:
             C = antipode(B); tag = 'antipodes'
+        elif mode < 0.47 and in_range(A) and abs(A[1]) < 89.0 and abs(A[0]) < 179.0:
+            # local triple: B is the midpoint of A and C, centimetres to metres apart (cancellation-prone range)
+            d = rng.choice([1e-7, 1e-6, 3e-6, 1e-5, 1e-4])
+            u, v = rng.uniform(-1, 1), rng.uniform(-1, 1)
+            C = (A[0] + 2 * d * u, A[1] + 2 * d * v)
+            B = (A[0] + d * u, A[1] + d * v)
+            tag = 'local'
         elif mode < 0.52:
             bad = rng.choice([180.00000000000003, -180.00000000000003, 181.0, -200.0, 360.0, float('inf'), float('-inf')])
             badlat = rng.choice([90.00000000000001, -90.00000000000001, 91.0, -120.0, 180.0, float('inf')])
